@@ -16,6 +16,21 @@ from parglare.tables.persist import table_to_serializable
 from parglare.exceptions import SRConflicts, RRConflicts
 
 
+def second(cls, mk, tb):
+    """table hash and conflict report of a second construction in the same directory (it loads the cached
+    table the first one wrote)"""
+    try:
+        with contextlib.redirect_stdout(io.StringIO()), contextlib.redirect_stderr(io.StringIO()):
+            p = cls(mk(), tables=tb)
+    except (SRConflicts, RRConflicts) as e:
+        return {"raises": type(e).__name__,
+                "conflicts": [[c.state.state_id, c.term.fqn, [q.prod_id for q in c.productions]] for c in e.conflicts]}
+    ser = json.dumps(table_to_serializable(p.table), sort_keys=True)
+    return {"table": hashlib.sha256(ser.encode()).hexdigest(),
+            "conflicts": [[c.state.state_id, c.term.fqn, [q.prod_id for q in c.productions]]
+                          for c in p.table.sr_conflicts + p.table.rr_conflicts]}
+
+
 def observe(spec):
     out = {}
     tmp = None
@@ -31,6 +46,8 @@ def observe(spec):
         for tb_name, tb in (("LALR", LALR), ("SLR", SLR)):
             for cls_name, cls in (("LR", Parser), ("GLR", GLRParser)):
                 key = "%s/%s" % (cls_name, tb_name)
+                if spec.get("only") and key not in spec["only"]:
+                    continue
                 buf = io.StringIO()
                 try:
                     with contextlib.redirect_stdout(buf), contextlib.redirect_stderr(io.StringIO()):
@@ -44,6 +61,10 @@ def observe(spec):
                     # lists lookahead sets in set order, which carries no meaning)
                     out[key] = {"conflicts": [[c.state.state_id, c.term.fqn, [q.prod_id for q in c.productions]]
                                               for c in e.conflicts]}
+                    if tmp:
+                        # the table was cached before the conflicts were reported: a second construction
+                        # (which loads it) must report the same
+                        out[key]["second_construction"] = second(cls, mk, tb)
                     continue
                 ser = json.dumps(table_to_serializable(p.table), sort_keys=True)
                 obs = {"table": hashlib.sha256(ser.encode()).hexdigest(),
@@ -51,6 +72,7 @@ def observe(spec):
                                      for c in p.table.sr_conflicts + p.table.rr_conflicts],
                        "order": [[s.fqn for s in st.actions] for st in p.table.states][:40]}
                 if tmp:
+                    obs["second_construction"] = second(cls, mk, tb)
                     pgc = [f for f in os.listdir(tmp) if f.endswith(".pgc")]
                     obs["pgc"] = {f: hashlib.sha256(open(os.path.join(tmp, f), "rb").read()).hexdigest() for f in sorted(pgc)}
                 if cls is GLRParser:
